@@ -584,6 +584,7 @@ class SingleWindowSplitter(BaseSplitter):
             raise ValueError(
                 f"{self.__class__.__name__} requires `y` to compute the cutoffs."
             )
+        y = _check_y(y)
         fh = _check_fh(self.fh)
         cutoff = _get_end(y, fh) - 2
         return np.array([cutoff])
